@@ -140,7 +140,7 @@ impl<'a> Visitor for Enumerate<'a> {
         // ---- powd: dual exponents, full tensor grid of both operands within a budget
         let mut list: Vec<(Op, Vec<f64>)> = Vec::new();
         for &b in &[0.3125, 0.875, 1.25, 2.5, 17.0] {
-            for &e in &[-1.5, 0.5, 2.0, 3.0] {
+            for &e in &[-1.5, 0.0, 0.5, 1.0, 2.0, 3.0] {
                 list.push((Op::Powd, vec![b, e]));
             }
         }
